@@ -177,12 +177,20 @@ Definition load_step (m : mode) (en : env) (s : state) (p : bytes) : (outcome + 
     | None => (inl (DdsErr "NONE"), s)
     end
   | Dds requested =>
-    match (match blookup p requested with Some k => Some k | None => blookup p (s_paths s) end) with
-    | None => (inl (DdsErr "NONE"), s)
+    match blookup p requested with
     | Some key =>
       match blookup key (s_blobs s) with
       | Some v => (inr (add_local en v), s)
-      | None => (inr (add_local en (RVal VNone)), s)
+      | None => (inl (DdsErr "LOAD_BEFORE_STORE"), s)
+      end
+    | None =>
+      match blookup p (s_paths s) with
+      | None => (inl (DdsErr "NONE"), s)
+      | Some key =>
+        match blookup key (s_blobs s) with
+        | Some v => (inr (add_local en v), s)
+        | None => (inr (add_local en (RVal VNone)), s)
+        end
       end
     end
   end.
@@ -316,9 +324,10 @@ Section Inv.
   Proof.
     intros m en s p x s' Hex. unfold load_step in Hex. destruct m as [|req].
     - destruct (blookup p (s_kept s)); inversion Hex; subst; apply R_refl.
-    - destruct (match blookup p req with Some k => Some k | None => blookup p (s_paths s) end) as [key|];
-        [|inversion Hex; subst; apply R_refl].
-      destruct (blookup key (s_blobs s)); inversion Hex; subst; apply R_refl.
+    - destruct (blookup p req) as [key|].
+      + destruct (blookup key (s_blobs s)); inversion Hex; subst; apply R_refl.
+      + destruct (blookup p (s_paths s)) as [key|]; [|inversion Hex; subst; apply R_refl].
+        destruct (blookup key (s_blobs s)); inversion Hex; subst; apply R_refl.
   Qed.
 
   Lemma inv_view : forall m en s v x s',
